@@ -37,10 +37,12 @@ MCAdd(t, idx, k) ==
 
 MCApply == ApplyNext /\ hist' = Append(hist, [k |-> "Apply"]) /\ UNCHANGED <<nadd, nbad, ndup>>
 MCFinalize == Finalize /\ hist' = Append(hist, [k |-> "Finalize"]) /\ UNCHANGED <<nadd, nbad, ndup>>
+MCReset == Reset /\ Len(hist) < MaxLen /\ hist' = Append(hist, [k |-> "Restart"]) /\ UNCHANGED <<nadd, nbad, ndup>>
 
 MCNext == \/ \E t \in Trees : \E idx \in 0..NSeg(t), k \in Kinds : MCAdd(t, idx, k)
           \/ (Len(hist) < MaxLen /\ MCApply)
           \/ MCFinalize
+          \/ MCReset
 MCSpec == MCInit /\ [][MCNext]_mcvars
 
 View == vars
